@@ -9,7 +9,7 @@ use umya_verif::props::c09::{fuzz_one, Case, Path};
 const FUNCS: &[&str] = &["SUM", "IF", "INDEX", "OFFSET", "LOG10", "_xlfn.XLOOKUP", "TEXT", "N"];
 const OPS: &[&str] = &["+", "-", "*", "/", "^", "&", "=", "<", ">", "<=", ">=", "<>"];
 const SHEETS: &[&str] = &["Data", "My Sheet", "It's", "a!b", "2024", "A1", "x\"y", "日本"];
-const NAMES: &[&str] = &["rate", "MyName", "TAX2024RATE", "_xlnm.Print_Area", "my.name", "RATE", "税率"];
+const NAMES: &[&str] = &["Q1.Sales", "A1_total", "rate", "MyName", "TAX2024RATE", "_xlnm.Print_Area", "my.name", "RATE", "税率"];
 const STRS: &[&str] = &["", "a", "a\"b", "\"", "it's", "x,y", "#REF!", "'S'!A1", "{1}", "[x]", " "];
 const NUMS: &[&str] = &["0", "1", "42", "1.5", ".5", "1E5", "1.5E+10", "2E-3"];
 const SPECS: &[&str] = &["[Col]", "[#All]", "[[#This Row],[Col]]", "[@Col]", "[[A]:[B]]"];
@@ -80,7 +80,7 @@ fn leaf(u: &mut Unstructured) -> Result<Expr> {
         2 => Expr::Bool(u.arbitrary()?),
         3 => Expr::Err { qual: if u.ratio(1, 4)? { qual(u)? } else { None }, text: pick(u, CLASSIC_ERRORS)?.to_string() },
         4 => Expr::Name { qual: if u.ratio(1, 5)? { qual(u)? } else { None }, name: pick(u, NAMES)?.to_string() },
-        5 => Expr::Structured { table: pick(u, &["Table1", "Sales", ""])?.to_string(), spec: pick(u, SPECS)?.to_string() },
+        5 => Expr::Structured { table: pick(u, &["Table1", "Sales", "", "Tbl1"])?.to_string(), spec: pick(u, SPECS)?.to_string() },
         _ => Expr::Ref(reference(u)?),
     })
 }
@@ -124,7 +124,7 @@ fn build(data: &[u8]) -> Result<Case> {
     let e = expr(&mut u, 5)?;
     let mut blanks = Vec::new();
     while !u.is_empty() && blanks.len() < 24 {
-        blanks.push(u.int_in_range(0..=5u8)?);
+        blanks.push(u.arbitrary::<u8>()?);
     }
     Ok(Case { path, clean: true, expr: e, blanks, lead, trail, at, to, edit_kind, gap, n })
 }
